@@ -39,10 +39,10 @@ CHECKS = {
          'Bounded exhaustive model checking of error recovery: every conflict-free grammar of the error-rule frames (2-3 terminals), every string up to the bound (errors at every depth relative to the states accepting error, first/last token, end of input, consecutive); plus 4 compiled grammars (README, two nesting levels, no_type-valued typed term, custom lexer) on every input up to length 5-7. Also lifted error-rule frames, long discard runs (40 terms), E-SCALE recovery families with 63-200 terminals, and one-dimensional depth sweeps (stack depth 1..70000, thorough 300000) with the error placed so that 0, 1 or 2 states are popped.',
          'The documented procedure is formalised in ref::drive; "action on error" includes reductions on the error lookahead.', '3 C08'),
  'C05': ('exhaustive enumeration of S/R grammars x precedence/associativity assignments, resolved table and tree shapes vs documented rule',
-         'Bounded exhaustive model checking: all grammars in the bounds with a shift/reduce cell, all assignments of precedence levels and associativities to the terms involved and explicit rule precedences; table compared cell by cell, then all strings parsed and grouping compared. Also lifted frames, and E-SCALE families with 9 precedence levels and with precedence values at INT_MIN, +-2^15, 2^16, INT_MAX.',
+         'Bounded exhaustive model checking: all grammars in the bounds with a shift/reduce cell, all assignments of precedence levels and associativities to the terms involved and explicit rule precedences; table compared cell by cell, then all strings parsed and grouping compared. Also lifted frames, and E-SCALE families with 9 precedence levels and with precedence values at INT_MIN, +-2^15, 2^16, INT_MAX. A compiled program covers the DSL spellings of an explicit rule precedence ([n] before/after >= and >>=, negative values, explicit precedences on binary rules) on every input up to 6-8 symbols against an independent precedence-climbing parser.',
          'rule[0] is indistinguishable from "no explicit precedence" in the API and is not explored.', '3 C05'),
  'C18': ('stateless exploration of every script of custom-lexer answers (environment-answer enumeration by choice-sequence replay) x grammars x inputs, against the documented driver',
-         'Bounded exhaustive model checking: the lexer is the environment; every answer sequence within range is enumerated depth-first for every conflict-free grammar of the custom-lexer frames and every input up to the bound.',
+         'Bounded exhaustive model checking: the lexer is the environment; every answer sequence within range is enumerated depth-first for every conflict-free grammar of the custom-lexer frames and every input up to the bound. Plus a compiled 5-term custom lexer answering lengths 1..200000 (one-dimensional sweep).',
          'Answers outside the stated contract (index >= number of terms, length > remaining input, length 0) are not generated.', '3 C18'),
  'C03': ('exhaustive enumeration of pattern ASTs; product-automaton reachability of the emitted DFA against a reference DFA over all 256 bytes',
          'Bounded exhaustive model checking over pattern space (AST node bound) with an unbounded verdict over input space: language equality is decided on the automata, so strings of every length are covered for each explored pattern. Plus a one-dimensional sweep of two-, three- and four-digit repetition counts (13..1000) on six pattern shapes.',
@@ -54,7 +54,7 @@ CHECKS = {
          'Bounded exhaustive model checking over input space (length <=5 quick, <=7 thorough, 7-byte alphabet incl. tab, CR, LF) for 5 term sets x 2 grammars (one with error recovery). Plus a one-dimensional sweep of lines and columns around 2^8, 2^16, 2^17 (whitespace runs, newline runs, long and multi-line lexemes, 10^5 terms on one line).',
          'Uses the lexer frame (a compiled parser whose lexer table is rebuilt at run time through the library\'s own builder calls).', '3 C10'),
  'C17': ('exhaustive enumeration of all strings up to a length bound as patterns; three-valued reference classifier; checked buffer for reads past the end',
-         'Bounded exhaustive model checking over pattern-string space: every string up to length 4 (quick) / 5 over 21 symbols, up to 6-7 over set and metacharacter alphabets; plus a compiled program constructing parsers that mention undeclared symbols in every position kind.',
+         'Bounded exhaustive model checking over pattern-string space: every string up to length 4 (quick) / 5 over 21 symbols, up to 6-7 over set and metacharacter alphabets; plus a compiled program constructing parsers that mention undeclared symbols in every position kind. Undeclared symbols also at each position of a 9-symbol rule, in the 21st rule, and with 69-character names differing in the last character.',
          'Refusal is observed as an exception at run-time construction (the same code path makes a constexpr object ill-formed).', '3 C17'),
  'C06': ('exhaustive enumeration of grammars x inputs and of byte strings on compiled grammars through a checked user buffer / every buffer kind, with the cvector bounds hook and ASan+UBSan as oracles',
          'Bounded exhaustive model checking: (1) every LR(1) grammar of the E-GRAM bounds x every string up to length 4-5 through a checked user buffer and cstring_buffer<N>; (2) 3 compiled grammars x every byte string up to length 3-4 over 8-9 bytes incl. NUL/0x80/0xff/whitespace x 4 buffer kinds x 3 option sets under ASan+UBSan; (3) regex::expr::match x every string up to length 4-6; termination by step horizon. Depth sweeps to 1e5 are a one-dimensional sample.',
@@ -69,10 +69,10 @@ CHECKS = {
          'Model checking of the real code: all call sequences up to depth 3 (quick) / 4 (thorough) over 15 calls (one of them re-entrant: a functor starts a second parse on the same object); all schedules with at most 2 preemptions for 12 call pairs on 2 threads; all schedules with at most 1 (quick) / 2 (thorough) preemptions for 6 call triples on 3 threads.',
          'Not covered: more than 3 threads under the scheduler, more than 2 preemptions, weak memory orderings.', '3 C15'),
  'C13': ('exhaustive enumeration of contextual/non-contextual functor assignments x context categories x inputs on compiled parsers',
-         'Bounded exhaustive exploration of a finite configuration space (16 functor assignments x 6 call forms) crossed with every input up to the bound; every functor call is compared with the reduction sequence of the documented driver.',
-         'One grammar shape (list with empty rule and a unit root rule); context types: a move-only struct; black box.', '3 C13'),
+         'Bounded exhaustive exploration of a finite configuration space (16 functor assignments x 6 call forms) crossed with every input up to the bound; every functor call is compared with the reduction sequence of the documented driver. A second grammar (rules of 0/1/3/5 symbols, typed term, error rule) runs in 10 assignments under 5 call forms incl. verbose; helper functors attached with >>= are covered too.',
+         'Two grammar shapes; context types: a move-only struct, int (for the helper functors); black box.', '3 C13'),
  'C14': ('exhaustive enumeration of inputs on a compiled parser with an instrumented value type; invariants checked on every execution',
-         'Bounded exhaustive exploration over input space (success, failure and recovery paths) with value-identity tracking; plus a move-only build on both compilers.',
+         'Bounded exhaustive exploration over input space (success, failure and recovery paths) with value-identity tracking; plus a move-only build on both compilers. Two further builds attach every functor with >>= and parse through context_parse.',
          'The cvector (cstring_buffer) value stack only admits trivially destructible values, which cannot be instrumented; that path is covered for indices/overflow by C06/C12.', '3 C14'),
  'C19': ('complete enumeration of the finite space of helper positions x arities x value categories (static_assert + run-time identity checks)',
          'The space is finite and is enumerated completely: 581 cases, on g++ and clang++.', 'Arity is capped at 9 (the library defines _e1.._e9).', '3 C19'),
